@@ -18,7 +18,9 @@ AbsOf(e) == [A |-> e.A, dir |-> e.directed, w |-> e.w4]
 LaOnLinks(e) == [a \in 1..e.n |-> [b \in 1..e.n |-> IF e.A[a][b] = 1 THEN e.la[a][b] ELSE 0]]
 \* for undirected_copy of an undirected network nothing changes
 FailsOfPath(e, nm) ==
-  LET o == e.paths[nm]  a == AbsOf(e)  n == e.n IN
+  LET o == e.paths[nm]  n == e.n
+      w4 == IF nm \in UnitWeightPaths THEN [k \in 1..n |-> 4] ELSE e.w4
+      a == [A |-> e.A, dir |-> e.directed, w |-> w4] IN
   IF o.exc # "" THEN {"Applicable|" \o nm \o ":" \o o.exc}
   ELSE {nm \o "." \o f : f \in
     (IF o.N # n THEN {"N"} ELSE {})
@@ -29,14 +31,16 @@ FailsOfPath(e, nm) ==
     \cup (IF o.spA # e.A THEN {"sp_A"} ELSE {})
     \cup (IF e.directed = 0 /\ ~(IsSymmetric(o.adj) /\ EmptyDiagonal(o.adj)) THEN {"symmetry"} ELSE {})
     \cup (IF o.graph # e.A \/ o.graph_n # n THEN {"graph"} ELSE {})
-    \cup (IF o.w4 # e.w4 THEN {"node_weights"} ELSE {})
+    \cup (IF o.w4 # w4 THEN {"node_weights"} ELSE {})
     \cup (IF o.total4 # TotalWeight(a) THEN {"total_node_weight"} ELSE {})
     \cup (IF ~Close(o.mean6, FxDiv(TotalWeight(a) * 250000, n, 1), Tol) THEN {"mean_node_weight"} ELSE {})
     \* (an undirected copy keeps no attributes: i->j and j->i may carry different values)
     \cup (IF e.hasla = 1 /\ nm # "undirected_copy" /\ (o.la_exc # "" \/ o.la # LaOnLinks(e))
           THEN {"link_attribute"} ELSE {})
+    \* (paths that end with unit weights are compared with the dense path on the weight-free measures only)
     \cup {"panel:" \o m : m \in {mm \in DOMAIN o.panel \cap DOMAIN e.paths["ndarray"].panel :
-                                  ~SameSeq(o.panel[mm], e.paths["ndarray"].panel[mm])}}
+                                  /\ ~(nm \in UnitWeightPaths /\ mm \in {"nsi_degree", "nsi_average_path_length"})
+                                  /\ ~SameSeq(o.panel[mm], e.paths["ndarray"].panel[mm])}}
     \cup {"panel-exception:" \o m : m \in (DOMAIN o.x \ DOMAIN e.paths["ndarray"].x)
                                            \cup (DOMAIN e.paths["ndarray"].x \ DOMAIN o.x)}}
 Tags(e) == e.blk \o (IF e.directed = 1 THEN ",directed" ELSE "")
